@@ -1,6 +1,7 @@
 package value
 
 import (
+	"context"
 	"fmt"
 	"sync"
 )
@@ -76,6 +77,22 @@ func (w *WaitGroup) End() (err Value) {
 
 func (w *WaitGroup) Wait() {
 	w.Native.Wait()
+}
+
+// Wait until the counter reaches zero, gives up when the context gets cancelled.
+func (w *WaitGroup) WaitCtx(ctx context.Context) (err Value) {
+	done := make(chan struct{})
+	go func() {
+		w.Native.Wait()
+		close(done)
+	}()
+
+	select {
+	case <-done:
+		return Undefined
+	case <-ctx.Done():
+		return ExecutionAbortedError.ToValue()
+	}
 }
 
 func initWaitGroup() {
